@@ -43,6 +43,15 @@ class Net:
         a, b = socket.socketpair()
         a.setblocking(False)
         b.setblocking(False)
+        srv = getattr(self, "servers", {}).get((ip, port))
+        if srv is not None:        # a server double (a real ioflo Server subclass) listens here
+            self.nextport = getattr(self, "nextport", 50000) + 1
+            ca = ("10.9.9.9", self.nextport)
+            srv.pending.append((SockDouble(b, peer=ca, name=(ip, port), tap=self.tap if hasattr(self, "tap") else None), ca))
+            self.log.append(("CONNECT", len(self.conns), ip, port, tls))
+            self.conns.append({"id": len(self.conns), "ip": ip, "port": port, "tls": tls, "sock": None, "buf": bytearray(),
+                               "open": False})
+            return a
         cid = len(self.conns)
         self.conns.append({"id": cid, "ip": ip, "port": port, "tls": tls, "sock": b, "buf": bytearray(),
                            "open": True})
@@ -92,6 +101,50 @@ class Net:
                     c["sock"].close()
                 except OSError:
                     pass
+
+
+class SockDouble:
+    """server end of a socket pair that reports TCP-like addresses (a Unix socket pair has none)"""
+    def __init__(self, sock, peer, name, tap=None):
+        self._s, self._peer, self._name, self._tap = sock, peer, name, tap
+
+    def getpeername(self):
+        return self._peer
+
+    def getsockname(self):
+        return self._name
+
+    def send(self, data):
+        n = self._s.send(data)
+        if self._tap is not None and n:
+            self._tap(self._peer, bytes(data[:n]))
+        return n
+
+    def __getattr__(self, k):
+        return getattr(self._s, k)
+
+
+def server_class(net):
+    """subclass of the REAL ioflo.aio.tcp.serving.Server whose listen socket is the Net"""
+    from ioflo.aio.tcp import serving as tcps
+
+    class FakeServer(tcps.Server):
+        def open(self):
+            self.pending = []
+            net.servers = getattr(net, "servers", {})
+            net.servers[(net.resolve(self.ha[0]) if self.ha[0] else "0.0.0.0", self.ha[1])] = self
+            self.opened = True
+            return True
+
+        def close(self):
+            self.opened = False
+
+        def accept(self):
+            if self.pending:
+                return self.pending.pop(0)
+            return (None, None)
+
+    return FakeServer
 
 
 def split_request(buf):
